@@ -79,9 +79,11 @@ func lineGen() *rapid.Generator[line] {
 }
 
 type datagram struct {
-	lines []line
-	src   string
-	ts    int64
+	lines  []line
+	src    string
+	ts     int64
+	junk   string // isJunk: the datagram's bytes, without any datapoint
+	isJunk bool
 }
 
 // guardAgg wraps a real MetricAggregator: it detects concurrent use (the worker must be the only goroutine
@@ -149,6 +151,9 @@ func TestPipelineConservation(t *testing.T) {
 		for i := range dgs {
 			dgs[i] = datagram{lines: rapid.SliceOfN(lineGen(), 1, 8).Draw(t, "lines"), src: rapid.SampledFrom(sources).Draw(t, "src"), ts: int64(i + 1)}
 		}
+		// datagrams without any datapoint in a receive batch (only rejected lines, only an event, nothing at all): drawn per batch
+		// position below; they carry nothing and must cost nothing
+		junkPool := []string{"", "\n", "bad", "x:1|q\ny:|c", "_e{1,1}:a|b", "\x00\xff|"}
 		// batches: consecutive datagrams grouped 1..3 per batch; batch i goes to feeder i%feeders
 		var batches [][]datagram
 		for i := 0; i < nd; {
@@ -156,7 +161,13 @@ func TestPipelineConservation(t *testing.T) {
 			if i+k > nd {
 				k = nd - i
 			}
-			batches = append(batches, dgs[i:i+k])
+			b := append([]datagram(nil), dgs[i:i+k]...)
+			if rapid.IntRange(0, 3).Draw(t, "junk-datagram") == 0 {
+				j := datagram{junk: rapid.SampledFrom(junkPool).Draw(t, "junk"), isJunk: true, src: "10.0.0.9", ts: int64(i + 1)}
+				pos := rapid.IntRange(0, len(b)).Draw(t, "junk-position")
+				b = append(b[:pos], append([]datagram{j}, b[pos:]...)...)
+			}
+			batches = append(batches, b)
 			i += k
 		}
 		// flush points: after a feeder has sent its k-th batch
@@ -236,7 +247,11 @@ func TestPipelineConservation(t *testing.T) {
 							sb.WriteString(l.text)
 							sb.WriteByte('\n')
 						}
-						b = append(b, &statsd.Datagram{IP: gostatsd.Source(d.src), Msg: []byte(sb.String()), Timestamp: gostatsd.Nanotime(d.ts), DoneFunc: func() {}})
+						msg := []byte(sb.String())
+						if d.isJunk {
+							msg = []byte(d.junk)
+						}
+						b = append(b, &statsd.Datagram{IP: gostatsd.Source(d.src), Msg: msg, Timestamp: gostatsd.Nanotime(d.ts), DoneFunc: func() {}})
 					}
 					in <- b
 					n := atomic.AddInt64(&sentBatches, 1)
